@@ -47,7 +47,9 @@ type lmScenario struct {
 	dist     [][]int
 	shapes   []lmShape
 	reallocs []lmRealloc
-	custom   string // "", "all" (expand to every node of the types at once), "far" (farthest first)
+	custom   string   // "", "all" (expand to every node of the types at once), "far" (farthest first)
+	prefix   []string // events executed before exploration starts (search from a non-initial state)
+	less     int      // explore this many levels less than the tier's depth (large node sets are expensive to observe)
 }
 
 func (s *lmScenario) build() *Allocator {
@@ -183,7 +185,8 @@ func (o *lmOmega) String() string {
 type lmOffer struct {
 	shape *lmShape
 	offer *Offer
-	gen   int // reference generation when the offer was taken
+	gen   int      // reference generation when the offer was taken
+	since []string // successful state-changing operations since the offer was taken
 }
 
 type lmResult struct {
@@ -232,6 +235,19 @@ func newExec(s *lmScenario) *lmExec {
 	return &lmExec{s: s, a: s.build(), live: map[string]*lmShape{}, extra: map[string]TypeMask{}}
 }
 
+// bump records a successful state-changing operation: a new generation, remembered by every outstanding offer.
+// The operations since an offer was taken are part of the state key: two histories that leave the same allocations
+// and an equally stale offer may still differ in what the implementation remembers about that offer (its version
+// counter), so they are not merged.
+func (x *lmExec) bump(ev string) {
+	x.gen++
+	for _, o := range x.offers {
+		if o != nil {
+			o.since = append(o.since, ev)
+		}
+	}
+}
+
 // apply executes one event and returns its result.
 func (x *lmExec) apply(ev string) lmResult {
 	f := strings.Split(ev, ":")
@@ -245,7 +261,7 @@ func (x *lmExec) apply(ev string) lmResult {
 		res = lmResult{ok: err == nil, zone: z, updates: u}
 		if err == nil {
 			x.live[sh.id] = sh
-			x.gen++
+			x.bump(ev)
 		} else {
 			res.errStr = err.Error()
 		}
@@ -274,7 +290,7 @@ func (x *lmExec) apply(ev string) lmResult {
 		res = lmResult{ok: err == nil, zone: z, updates: u}
 		if err == nil {
 			x.live[of.shape.id] = of.shape
-			x.gen++
+			x.bump(ev)
 		} else {
 			res.errStr = err.Error()
 		}
@@ -301,7 +317,7 @@ func (x *lmExec) apply(ev string) lmResult {
 		if err == nil {
 			delete(x.live, f[1])
 			delete(x.extra, f[1])
-			x.gen++
+			x.bump(ev)
 		} else {
 			res.errStr = err.Error()
 		}
@@ -309,7 +325,7 @@ func (x *lmExec) apply(ev string) lmResult {
 		x.a.Reset()
 		x.live = map[string]*lmShape{}
 		x.extra = map[string]TypeMask{}
-		x.gen++
+		x.bump(ev)
 		res = lmResult{ok: true}
 	}
 	return res
@@ -337,7 +353,7 @@ func (x *lmExec) runPrecise(trace []string) (bool, string, string) {
 			post = x.s.observe(x.a)
 		}
 		if ev[0] == 'R' && res.ok && post.String() != pre.String() {
-			x.gen++
+			x.bump(ev)
 		}
 		if last {
 			x.lastRes, x.after = res, post
@@ -415,7 +431,7 @@ func (x *lmExec) key() string {
 			for _, id := range mc.SortedKeys(up) {
 				u = append(u, id+"="+up[id].String())
 			}
-			fmt.Fprintf(&b, " o%d=%s/%v/%s/%s", i, o.shape.id, o.gen == x.gen, o.offer.NodeMask(), strings.Join(u, ","))
+			fmt.Fprintf(&b, " o%d=%s/%v/%s/%s/%s", i, o.shape.id, o.gen == x.gen, o.offer.NodeMask(), strings.Join(u, ","), strings.Join(o.since, ">"))
 		}
 	}
 	return b.String()
@@ -814,6 +830,20 @@ func lmScenarios(prop string, thorough bool) []*lmScenario {
 			{"d", 5, n(2), 0, false, BestEffort}, {"e", 2, n(1), 0, false, Reservation},
 		}, reallocs: []lmRealloc{{n(1), 0}}})
 
+	// 9. 4 DRAM + 4 PMEM (the layout of the package's own TestRealloc), searched from a state with partially overlapping,
+	// non-nested zones {0,1}, {1,2}, {2,3} that are nearly full: widening anything now overcommits a brand-new zone and the
+	// overcommit handler has to move requests (possibly the re-allocated one itself) further out, into PMEM
+	d8 := [][]int{
+		{10, 21, 11, 21, 17, 28, 28, 28}, {21, 10, 21, 11, 28, 28, 17, 28}, {11, 21, 10, 21, 28, 17, 28, 28}, {21, 11, 21, 10, 28, 28, 28, 17},
+		{17, 28, 28, 28, 10, 28, 28, 28}, {28, 28, 17, 28, 28, 10, 28, 28}, {28, 17, 28, 28, 28, 28, 10, 28}, {28, 28, 28, 17, 28, 28, 28, 10}}
+	add(&lmScenario{name: "overlap8", dist: d8,
+		nodes: []lmNode{{D, 4, true, "0-1"}, {D, 4, true, "2-3"}, {D, 4, true, "4-5"}, {D, 4, true, "6-7"}, {P, 4, true, ""}, {P, 4, true, ""}, {P, 4, true, ""}, {P, 4, true, ""}},
+		shapes: []lmShape{
+			{"a", 7, n(0, 1), TypeMaskDRAM, false, Burstable}, {"b", 7, n(1, 2), TypeMaskDRAM, false, Burstable}, {"e", 2, n(2, 3), TypeMaskDRAM, false, Burstable},
+			{"c", 1, n(0), TypeMaskDRAM, false, Burstable}, {"d", 2, n(3), 0, false, Guaranteed}, {"f", 0, n(0), 0, false, BestEffort},
+		}, reallocs: []lmRealloc{{n(0, 1), TypeMaskDRAM}, {n(1), 0}, {0, TypeMaskPMEM}},
+		prefix: []string{"A:a", "A:b", "A:e"}, less: 1})
+
 	// capacity / size variants to drive overcommit harder
 	base := len(out)
 	for i := 0; i < base; i++ {
@@ -876,7 +906,7 @@ func lmTest(t *testing.T, prop string) {
 		if !w.Mine(i) {
 			continue
 		}
-		ex := &mc.Explorer{W: w, Scenario: s.name, Depth: depth, Run: func(tr []string) mc.Step { return lmRun(prop, s, tr) }}
+		ex := &mc.Explorer{W: w, Scenario: s.name, Depth: depth - s.less, Run: func(tr []string) mc.Step { return lmRun(prop, s, append(append([]string{}, s.prefix...), tr...)) }}
 		st, tr, d := ex.Explore()
 		w.Note("%s: states=%d transitions=%d depth=%d", s.name, st, tr, d)
 	}
